@@ -6,9 +6,13 @@ contract("environment:JSONPathEnvironment.compile", trusted=True,
     defines=["result == compile_outcome(self, query)"],
     ensures=["isinstance(result, JSONPathQuery)", "result.env == self", "wf_query(result, self)"],
     raises=["JSONPathError"], props=["C03", "C04", "C05", "C13"],
-    note="lexer + Pratt parser: outside the pyvc subset (DESIGN 4 C03/C04). Assumed here: compile is a function of "
-         "(environment, text) [C14 frame contracts], returns a well-formed query [bounded: wf_query checked on every "
-         "enumerated query] and raises only JSONPathError [bounded: C13]")
+    note="compile(q) = JSONPathQuery(env=self, segments=tuple(self.parser.parse(TokenStream(tokenize(q))))). Its three stages are under contract: "
+         "tokenize (verified: only lexer errors escape, every token lies in the text), Parser.parse and everything below it (verified: every segment, "
+         "selector and expression it builds is well formed and well typed for the PARSER's environment; assumptions listed in contracts/parser.py). "
+         "What stays assumed here is the step the value universe cannot express: the environment and its parser refer to each other "
+         "(env.parser.env is env), an object cycle that algebraic datatypes exclude -- so `wf_query(result, self)` is assumed from "
+         "`wf_query(result, self.parser.env)`; plus: compile is a function of (environment, text) [C14 frame contracts]. That the tree is the "
+         "RFC's reading of the text is the bounded tie-in (bounded/reftree.py).")
 
 for m, spec in (("find", "find"), ("finditer", "finditer"), ("find_one", "find_one")):
     pass
